@@ -1178,10 +1178,11 @@ def rule_queue(ctx):
     prog = ctx.prog
     Q = "ebr_impl::sync::queue::Queue::<T>::"
     n = 0
+    exq = Exec(prog, inline={Q + "pop_internal", Q + "pop_if_internal", Q + "push_internal"})
     for fname, need_pred in ((Q + "pop_if_internal", True), (Q + "pop_internal", False)):
         b = prog.body(fname)
         r.functions.add(fname)
-        for p in ctx.ex.paths(b):
+        for p in exq.paths(b):
             if p.exit[0] != "return":
                 continue
             r.paths += 1
